@@ -4,7 +4,7 @@ from harness import common, layerb as B, schemes as S
 from univers.version_constraint import VersionConstraint
 
 MODULES = ["Univers.Props.C10"]
-LEVEL = "translation_validation"
+LEVEL = "proof"
 RULE = ("per scheme: seeded well-formed ranges (patterns accepted by the model's validation) x seeded lists of known versions "
         "(any order, with duplicates, with or without the range's own bound versions); the real range.normalize(known) and "
         "RangeClass.from_versions(list) against the Lean model on ranks, and the property's clauses evaluated on the real result: "
